@@ -69,13 +69,34 @@ def run(pid, tier):
     for (ln, ev) in parse_bad(r3.out):
         o.finding(kind='rejection', fam=ev.get('fam'), ft=ev.get('ft'), params=ev.get('params'), res=str(ev.get('res'))[:80], show=ev.get('show'),
                   event={k: v for k, v in ev.items() if k not in ('probes',)}, signature='rejection:%s:%s' % (ev.get('fam'), ev.get('params')))
+    # Knuth's multiplication method (Poisson lambda < 12, f32 and f64; Binomial's Poisson limit): P(X = 0), and P(X = 1) in f32
+    kn = wd / 'knuth.ndjson'
+    r4 = tlc('MCKnuth', 'MCKnuth.cfg', pid, 'knuth_cases', workers=1, timeout=1200, heap='2g', env={'TIER': tier},
+             pipe_to=[str(RDV), 'rej-drive', '--seed', str(sd), '--out', str(kn)])
+    require_ok(r4, 'MCKnuth')
+    s4 = json.loads(r4.consumer_out.strip().splitlines()[-1])
+    if s4['cases'] < 15:
+        raise ToolError('rej-drive (Knuth): too few cases: %s' % s4)
+    r5 = tlc('TraceRejection', 'TraceRejection.cfg', pid, 'knuth_trace', trace_mode=True, env={'TRACE': kn, 'TIER': tier}, timeout=1200, heap='4g')
+    require_ok(r5, 'TraceRejection')
+    if r5.rejected or r5.violated:
+        raise ToolError('knuth trace not consumed: %s' % (r5.rejected or r5.violated))
+    o.add_tlc(r5, 'TraceRejection: %d Knuth-method events (P(X=0) exact over one word; P(X=1) over 2^48 tickets in f32)' % s4['events'])
+    klines = kn.read_text().splitlines()
+    o.traces += len(klines)
+    o.extra['knuth_drive'] = s4
+    for (ln, ev) in parse_bad(r5.out):
+        o.finding(kind='knuth', fam=ev.get('fam'), ft=ev.get('ft'), params=ev.get('params'), res=str(ev.get('res'))[:80], show=ev.get('show'),
+                  event={k: v for k, v in ev.items() if k not in ('probes',)}, signature='knuth:%s:%s:%s' % (ev.get('fam'), ev.get('ft'), ev.get('params')))
+    o.samples.append({'kind': 'Knuth method: exact P(X = 0) of Poisson<f64>', 'event': {k: v for k, v in json.loads(klines[-5]).items() if k != 'probes'}})
     o.samples.append({'kind': 'exact law of a two-word rejection sampler (f32) over 2^48 tickets', 'event': {k: v for k, v in json.loads(rlines[0]).items() if k != 'probes'}})
     o.samples.append({'kind': 'ticket histogram (real sampler -> TraceDiscrete)', 'event': next(e for e in evs if e['op'] == 'hist' and e['kind'] == 'hin' and e['par'][0] >= 8)})
     o.samples.append({'kind': 'Bringmann-Friedrich scripted path', 'event': next(e for e in evs if e['op'] == 'bf')})
     o.assumptions = [
         'exact regimes only: BINV (n*min(p,1-p) < 10, dyadic p), HIN (N <= 16 histograms, N <= 30 breakpoint tickets), Geometric/StandardGeometric structure, '
         'Zipf and Zeta in f32 (exact law over the 2^24 x 2^24 lattice of proposal and acceptance word at the table\'s parameter points, k <= 24 and the tail, tolerance 2^-20 + 2^-14 p); '
-        'BTPE, Poisson (Knuth/PD), H2PE and the f64 instantiations of Zipf/Zeta are floating-point rejection kernels whose laws are NOT decided',
+        'Poisson with lambda < 12 (Knuth) and Binomial\'s Poisson limit: P(X = 0) = exp(-lambda) exactly (the one-word returns are a prefix of the word range; bisection with witnesses, f64) and P(X = 0), P(X = 1) over the 2^48 tickets in f32; the rest of those laws is not decided; '
+        'BTPE, Poisson PD (lambda >= 12), H2PE and the f64 instantiations of Zipf/Zeta are floating-point rejection kernels whose laws are NOT decided',
         'Zipf/Zeta: the documented pmf values are mpmath constants of spec/RejectionTable.tla; the law formula A_k / A assumes two words per iteration and an acceptance region that is a prefix of the acceptance lattice, '
         'both checked (other = 0; probes) - and is itself checked by ticket enumeration on a toy instance (RejToy.tla, with a deliberately wrong variant that must fail)',
         'half a ticket (>= 2^-31) is eleven orders of magnitude above the rounding error of the code\'s recurrences',
